@@ -7,6 +7,9 @@ VERIF = os.path.dirname(os.path.dirname(os.path.abspath(__file__)))
 
 # id -> (technique, level text, level note, design ref)   -- only checks that exist under mc/checks are claimed
 CHECKS = {
+    "C06": ("bounded exhaustive enumeration of observable contents x entry forms / argument orders against an independent RFC 8785 + uuid5 recomputation",
+            "All 18 SCO types of STIX 2.1 plus two harness-registered custom observables: every generated valid instance (every property x value alphabet incl. escapes, astral characters, boundary and 1e16-1e21 numbers, timestamp spellings, extensions with floats / nested lists / embedded objects; thorough: pairs), every subset of the contributing properties, 171 hash dictionaries (subsets x insertion orders x alias spellings) per hash-carrying type, each built through 8 entry forms / keyword and nested-dictionary orders and by re-parsing the own serialization without id. The id must equal type + uuid5(STIX namespace, independent canonical JSON of exactly the contributing properties of the serialized object with one hash chosen by precedence), be a fresh UUIDv4 when none is present, be unaffected by non-contributing properties, and ids <-> contributing values must be a bijection over the whole enumerated set.",
+            "trusted: contributing-property lists frozen in mc/spec/stix21.json; mc/ref/jcs.py; 'else first' hash choice is order-dependent by definition, such dictionaries are not permuted", "DESIGN.md §3 C06"),
     "C04": ("bounded exhaustive enumeration of bases x injection sites x injection kinds x strictness x entry forms (1 injection, thorough 2)",
             "For the minimal and maximal instance of every type of both spec versions, every injection site found by walking the instance along the frozen model (top level, each embedded object, each registered extension, each hashes dictionary, each reference, bundle and observed-data members, extensions slots) x 14 injection kinds (x_/unknown property, custom_properties key, unregistered extension, extension-definition flavours, unknown and non-vocabulary hash algorithms, references to unregistered types and to names registered in another category, unregistered member types, unregistered top-level types with extension-definition flavours), each also nested in a bundle, x allow_custom x {constructor, parse(dict), parse(text), MemoryStore.add, FileSystemSink.add(dict|text)}, plus permissively pre-built sub-object instances given to strict and permissive parents and deep copies. Strict: refused; permissive: has_custom == (strict re-parse of the serialization is refused).",
             "trusted: site enumeration from the frozen spec model; extension-definition extensions are judged only through the equivalence (library-documented choice)", "DESIGN.md §3 C04"),
